@@ -222,6 +222,56 @@ func (e *GenEnv) Build(s *GenSpec) *Built {
 
 func fmtVal(v any) string { return Digest(fmt.Sprintf("%#v", v)) }
 
+// deepVal is the address-free text of a value (pointers are followed)
+func deepVal(v any) string { return Digest(deepFmt(reflect.ValueOf(v))) }
+
+// deepFmt formats like %#v but follows pointers instead of printing addresses, so that
+// equal values have equal texts from run to run.
+func deepFmt(v reflect.Value) string {
+	if !v.IsValid() {
+		return "nil"
+	}
+	switch v.Kind() {
+	case reflect.Pointer:
+		if v.IsNil() {
+			return "nil"
+		}
+		return "&" + deepFmt(v.Elem())
+	case reflect.Interface:
+		if v.IsNil() {
+			return "nil"
+		}
+		return deepFmt(v.Elem())
+	case reflect.Slice, reflect.Array:
+		if v.Kind() == reflect.Slice && v.IsNil() {
+			return v.Type().String() + "(nil)"
+		}
+		parts := make([]string, v.Len())
+		for i := range parts {
+			parts[i] = deepFmt(v.Index(i))
+		}
+		return v.Type().String() + "{" + strings.Join(parts, ", ") + "}"
+	case reflect.Map:
+		parts := make([]string, 0, v.Len())
+		it := v.MapRange()
+		for it.Next() {
+			parts = append(parts, deepFmt(it.Key())+":"+deepFmt(it.Value()))
+		}
+		sort.Strings(parts)
+		return v.Type().String() + "{" + strings.Join(parts, ", ") + "}"
+	case reflect.Struct:
+		parts := make([]string, v.NumField())
+		for i := range parts {
+			parts[i] = v.Type().Field(i).Name + ":" + deepFmt(v.Field(i))
+		}
+		return v.Type().String() + "{" + strings.Join(parts, ", ") + "}"
+	}
+	if v.CanInterface() {
+		return fmt.Sprintf("%#v", v.Interface())
+	}
+	return fmt.Sprintf("%#v", v)
+}
+
 func (e *GenEnv) build(s *GenSpec) *Built {
 	if base, variant, ok := splitIntKind(s.K); ok {
 		ki := IntKinds[base]
